@@ -2,8 +2,10 @@
 #[allow(unused_imports)]
 use super::*;
 
+// C47: mounted only where behaviour.rs has been retargeted to the dependency shim (shim
+// tree with C47 enabled or in VERIF_DEV_UNITS); the generated mount file is empty elsewhere.
 pub(crate) mod c47 {
     #[allow(unused_imports)]
     use super::super::*;
-    include!(concat!(env!("LIBP2P_VERIF"), "/units/C47/limits.rs"));
+    include!(concat!(env!("LIBP2P_VERIF_GEN"), "/C47/mount.rs"));
 }
